@@ -139,18 +139,9 @@ func HarnessC15Reconcile() {
 	verif.Assert(local.IsAncestor(local.Ref(rsl.Ref), remote.Ref(rsl.Ref)), "local-log-extends-the-remote-tip")
 	after := zz15Read(local)
 	base := len(common) + len(remoteOnly)
-	// Known finding C15-K1: propagation entries in the local-only suffix are
-	// not re-recorded; C15-K2: annotations are re-recorded with the ids of the
-	// abandoned local-only entries, so the re-recorded entry is no longer
-	// referred to (and, for a skip annotation, is un-revoked).
-	hasLocalProp := false
-	for _, l := range localOnly {
-		if l.kind == 2 {
-			hasLocalProp = true
-		}
-	}
-	verif.Witness("C15-K1", hasLocalProp && len(after) != base+len(localOnly))
-	verif.Assert(len(after) == base+len(localOnly) || hasLocalProp, "every-local-only-entry-is-re-recorded-exactly-once")
+	// (C15-F1, fixed: propagation entries of the local-only suffix used to be
+	// dropped and annotations used to keep the ids of the abandoned entries)
+	verif.Assert(len(after) == base+len(localOnly), "every-local-only-entry-is-re-recorded-exactly-once")
 	if len(after) != base+len(localOnly) {
 		return
 	}
@@ -175,9 +166,7 @@ func HarnessC15Reconcile() {
 				} else {
 					want = after[base+(t-len(common))].GetID() // a local-only entry was re-recorded
 				}
-				k2 := t >= len(common) && !g.RefersTo(want)
-				verif.Witness("C15-K2", k2)
-				verif.Assert(g.RefersTo(want) || k2, "annotation-refers-to-the-re-recorded-counterpart")
+				verif.Assert(g.RefersTo(want), "annotation-refers-to-the-re-recorded-counterpart")
 			}
 		}
 	}
